@@ -1,4 +1,5 @@
 import Proofs.LoadHeapRun
+import PyxModel.LoadSharing
 import Gen.Sharing
 
 /-!
@@ -14,17 +15,6 @@ built metamodels in any way and at any length.
 
 namespace PyxProps.C18
 open Pyx.Load Pyx.Heap
-
-/-- where the generated table says the statement's own list object is kept -/
-def genByRef (cls field : String) : List String :=
-  match Pyx.Gen.Sharing.byRef.find? (fun e => e.1 = cls ∧ e.2.1 = field) with
-  | some e => e.2.2
-  | none => ["<no entry>"]
-
-/-- the sharing relation of the code as it is now -/
-def genSharing : Sharing :=
-  ⟨!(genByRef "CreateClassStmt" "attributes").isEmpty,
-   !(genByRef "CreateAssociationStmt" "source_keys").isEmpty || !(genByRef "CreateAssociationStmt" "target_keys").isEmpty⟩
 
 /-- **mutators_footprint**: each listed mutation (create — also `new` with referential arguments and its batch
     relate, `Mut.newArgs` — / delete / modify instance, relate / unrelate,
